@@ -218,11 +218,26 @@ theorem accessorsFor_of_selected {cfg : Cfg} (h : cfg.wf = true) {ct : Str} {k :
 
 /-! ### the result of `ReadEntity` as a function of the request alone -/
 
-/-- `ReadEntity`'s possible results without any pool: the declared coding read by a fresh decompressor -/
+/-- `ReadEntity`'s possible results without any pool: the declared coding read by a fresh
+    decompressor — by the entity reader first, then on to its end (`drain`; for an undeclared coding
+    the stream is the body followed by a clean EOF, on which `drain` changes nothing) -/
 def readPure {Value : Type} (C : Codec Value) (cfg : Cfg) (req : RequestIn) : List (Result Value) :=
   match declaredStream C req with
   | none => [.err .badEncoding]
-  | some s => lookupAndRead C cfg req.contentType s
+  | some s => (lookupAndRead C cfg req.contentType s).map (drain s)
+
+theorem drain_clean {Value : Type} {s : Stream} (h : s.clean = true) (r : Result Value) : drain s r = r := by
+  cases r <;> simp [drain, h]
+
+theorem drain_dirty {Value : Type} {s : Stream} (h : s.clean = false) (r : Result Value) : (drain s r).isErr = true := by
+  cases r <;> simp [drain, h, Result.isErr]
+
+theorem drain_err {Value : Type} (s : Stream) (k : ErrKind) : drain s (.err k : Result Value) = .err k := rfl
+
+theorem map_drain_clean {Value : Type} {s : Stream} (h : s.clean = true) (rs : List (Result Value)) : rs.map (drain s) = rs := by
+  induction rs with
+  | nil => rfl
+  | cons r rs ih => simp [drain_clean h, ih]
 
 /-- under the `Reset` law the pool (which object is acquired, what it was used for before) is
     irrelevant to the result -/
@@ -236,6 +251,7 @@ theorem readEntity_results {Value : Type} (L : CodecLaws Value) (cfg : Cfg) (poo
     · simp only [hd, if_true]
       cases L.unzl req.body <;> rfl
     · simp only [hd, if_false]
+      exact (map_drain_clean rfl _).symm
 
 theorem readEntity_events {Value : Type} (C : Codec Value) (cfg : Cfg) (pool : Pool) (req : RequestIn) :
     (readEntity C cfg pool req).events = [] ∨ (readEntity C cfg pool req).events = [.acquire, .use, .release] := by
@@ -257,7 +273,7 @@ theorem readPure_ne_nil {Value : Type} (C : Codec Value) (cfg : Cfg) (req : Requ
   unfold readPure
   cases declaredStream C req with
   | none => simp
-  | some s => exact lookupAndRead_ne_nil C cfg _ s
+  | some s => simpa using lookupAndRead_ne_nil C cfg _ s
 
 theorem nil_ne_gzip : ([] : Str) ≠ ENCODING_GZIP := by decide
 theorem nil_ne_deflate : ([] : Str) ≠ ENCODING_DEFLATE := by decide
